@@ -3,7 +3,7 @@
 use crate::util::os;
 use serde::{Deserialize, Serialize};
 use vcore::*;
-use vmodel::argv::gen_argv_broad;
+use vmodel::argv::{gen_argv_broad, gen_argv_hybrid};
 use vmodel::gen::{gen_broad, GenOpts};
 use vmodel::observe::{exit_contract_violation, observe, observe_err};
 use vmodel::{build_checked, Built, CmdSpec};
@@ -103,6 +103,13 @@ pub fn run_parse_total(case: &ParseCase, ctx: &mut Ctx) -> Verdict {
     if case.spec.settings.multicall {
         ctx.label("multicall");
     }
+    if !case.spec.subs.is_empty() {
+        ctx.label("spec-has-subcommands");
+        let names: Vec<String> = case.spec.subs.iter().flat_map(|s| s.all_names()).collect();
+        if case.argv.iter().skip(1).any(|a| names.iter().any(|n| n.as_bytes() == a.as_slice())) {
+            ctx.label("argv-names-a-subcommand");
+        }
+    }
     if case.argv.len() > 100 {
         ctx.label("argv>100");
     }
@@ -121,7 +128,8 @@ impl Property for Total {
          the builder assertion files is a discard) x argv of 0-40 tokens built from the spec's own spellings (longs, aliases, \
          prefixes, clusters, =-forms, subcommand names/flags), structural tokens (--, -, help/version requests, terminators), \
          negative numbers, unknown flags, raw bytes incl. invalid UTF-8, empty and 3000-byte tokens, a token repeated up to 300 \
-         times, drop/duplicate/swap mutations. Oracle: no panic; Err: kind/render/Display/Debug/context evaluate and obey the \
+         times, drop/duplicate/swap mutations; two fifths of the lines are instead well-formed lines (required arguments supplied, \
+         walking down the subcommand tree) damaged by 0-4 edits (insert a spec-derived or hostile token, drop, duplicate, swap, truncate). Oracle: no panic; Err: kind/render/Display/Debug/context evaluate and obey the \
          exit contract; ignore_errors => Ok or DisplayHelp/DisplayVersion; Ok: walking ids/raw occurrences/indices/sources at every \
          level does not panic. Non-trivial: argv has >= 2 user tokens and the outcome is Ok or an error that is not about the first \
          token; distinct = distinct (spec, argv)."
@@ -130,12 +138,13 @@ impl Property for Total {
     fn budget(&self, tier: Tier) -> Budget {
         Budget {
             cases: tier.pick(600_000, 40_000_000),
-            tape_len: 700,
+            tape_len: 4000,
         }
     }
     fn decode(&self, t: &mut Tape<'_>) -> ParseCase {
         let spec = gen_broad(t, &GenOpts::default());
-        let argv = gen_argv_broad(t, &spec);
+        // 3/5 free-form lines, 2/5 well-formed lines with a few edits (deep states)
+        let argv = if t.chance(2, 5) { gen_argv_hybrid(t, &spec) } else { gen_argv_broad(t, &spec) };
         ParseCase { spec, argv }
     }
     fn run(&self, case: &ParseCase, ctx: &mut Ctx) -> Verdict {
